@@ -221,6 +221,12 @@ def grid(ctx, only_functions=None, thorough=None):
         for ci in range(n):
             v = vn[((ci // 4) + ctx.seed) % 4]
             cells.append((per_variant[v][ci], c13_dyn.LAYOUTS[(ci + ctx.seed) % 4], "operator"))
+    # backward passes with explicit caller-owned gradient tensors (every custom autograd Function; all outputs of one call):
+    # quick = two classes in all four layouts, the others with the layout rotating; thorough = all four
+    for k, c in enumerate(c13_cases.backward_grad_cases()):
+        full = thorough or c[0].split(".")[1] in ("Dense", "AddedDiag")
+        for lay in (c13_dyn.LAYOUTS if full else [c13_dyn.LAYOUTS[(k + ctx.seed) % 4]]):
+            cells.append((c, lay, "backward"))
     for c in c13_cases.history_cases():
         for lay in (c13_dyn.LAYOUTS if thorough else ["contiguous", "slice"]):
             cells.append((c, lay, "history"))
@@ -429,9 +435,26 @@ def trace_cells(ctx, cells):
             idx = ["contiguous", "expanded", "transposed", "slice"].index(lay)
             if idx == 0 or idx == 1 + (__import__("zlib").crc32((k[0] + k[1]).encode()) + ctx.seed) % 3:
                 out.append((case, lay, kind))
+        elif kind == "backward":
+            if i % 4 == ctx.seed % 4:
+                out.append((case, lay, kind))
         elif i % 2 == ctx.seed % 2:
             out.append((case, lay, kind))
     return out
+
+
+def site_hits(s, hits):
+    """dynamic hits that are concrete inputs for the failing static site s: written in the same function by the same operation; else in
+    the same function; a site `helper NAME(param)` (the caller hands its own caller's memory to an in-place helper) is reproduced by
+    a write localised inside the helper NAME"""
+    f = s["function"]
+    conc = [h for h in hits if h["key"].get("function") == f and h["key"].get("op") == s["op"]]
+    if not conc:
+        conc = [h for h in hits if h["key"].get("function") == f]
+    if not conc and s["op"].startswith("helper "):
+        hn = s["op"][len("helper "):].split("(")[0]
+        conc = [h for h in hits if h["key"].get("function") == hn]
+    return conc
 
 
 def report_static(ctx, meta, dyn):
@@ -440,10 +463,8 @@ def report_static(ctx, meta, dyn):
     out = []
     for s in failing_sites(meta):
         key = {"kind": "static", "function": s["function"], "op": s["op"], "effect": "static-" + s["program"]}
-        conc = [h for h in (dyn or {}).get("hits", []) if h["key"].get("function") == s["function"] and h["key"].get("op") == s["op"]]
-        # sites of the object-identity program that share their source line with a reproduced storage site are the same statement
-        if not conc:
-            conc = [h for h in (dyn or {}).get("hits", []) if h["key"].get("function") == s["function"]]
+        # (sites of the object-identity program that share their source line with a reproduced storage site are the same statement)
+        conc = site_hits(s, (dyn or {}).get("hits", []))
         executed = any(q == s["function"] and m == s["module"] for (m, q) in (dyn or {}).get("executed", ()))
         replay = {"kind": "ownership-obligation-failed", "site": s,
                   "obligation": "own_check for %s :: %s (%s program): in-place target may hold caller-owned memory; "
@@ -490,7 +511,7 @@ def search(ctx, meta, types, seqh, want=None):
         new = [h for h in d["hits"] if not h["known"]]
         if want is True:
             return bool(new)
-        return all(any(h["key"].get("function") == s["function"] for h in new) for s in want)
+        return all(site_hits(s, new) for s in want)
     cells = grid(ctx)
     d = dynamic_stage(ctx, meta, cells, types, localise_limit=400 if want else 200, seq_rows=seq_collect(ctx, seqh))
     if want and ctx.quick and not satisfied(d):
@@ -645,7 +666,8 @@ def replay(rp):
         from . import c13_seq
         case = c13_seq.find_case(rp["entry"], rp["variant"])
     else:
-        allc = c13_cases.utility_cases() + c13_cases.operator_cases() + c13_cases.history_cases() + c13_cases.random_history_cases(400)
+        allc = c13_cases.utility_cases() + c13_cases.operator_cases() + c13_cases.backward_grad_cases() + c13_cases.history_cases() + \
+            c13_cases.random_history_cases(400)
         case = next((c for c in allc if c[0] == rp["entry"] and c[1] == rp["variant"]), None)
     if case is None:
         print("unknown case", rp["entry"], rp["variant"])
